@@ -30,7 +30,7 @@ const int kNumKnobs = sizeof(kKnobs) / sizeof(kKnobs[0]);
 int g_in_lib = 0;
 Backend g_backend = B_NONE;
 int g_exit_code = 0;
-long g_steps = 0, g_step_budget = 50000000;
+long g_steps = 0, g_step_budget = 300000, g_byte_budget = 192l << 20;
 int g_cache_mismatch_tok = -1, g_cache_mismatch_kind = 0;
 long g_sink_bytes = 0;
 int g_pl_last = -1, g_pl_toks = -1, g_announce_fd = -1;
@@ -207,8 +207,8 @@ void generic_free(void *p, Kind want, const char *entry) {
 void step() {
   g_steps++;
   g_tot.steps++;
-  if (g_steps > g_step_budget) {
-    violation("step_budget", "%s", "operation exceeded the step budget (non-terminating?)");
+  if (g_steps > g_step_budget || g_cur.bytes > g_byte_budget) {
+    violation("step_budget", "operation exceeded its resource budget (%ld steps, %ld bytes requested)", g_steps, g_cur.bytes);
     g_steps = 0;
     if (g_exit_jmp) longjmp(*g_exit_jmp, 2);
   }
